@@ -165,12 +165,17 @@ def gen(rng, tier):
         main.append(["waitclose", "c0", 900])
     main.append(["terminate", 10.0])
     return {"gateways": specs, "actors": actors, "knobs": knobs, "strategy": L.gen_strategy(rng),
-            "preempt": L.gen_preempt(rng, 3000), "faults": [], "transport": transport, "backend": backend,
+            "preempt": L.gen_preempt(rng, 3000), "preempt_at": L.gen_preempt_at(rng, ["_local_close", "close", "receive", "_no_longer_opened", "__del__", "send", "waitclose", "executetask"]), "faults": [], "transport": transport, "backend": backend,
             "gwi": gwi, "subject": T, "closer": closer, "kind": kind, "peer": peer, "nitems": k,
             "closer_aid": closer_aid, "observers": observers, "dir": d}
 
 
 def shrink_cases(case):
+    if case.get("preempt_at"):
+        for i in range(len(case["preempt_at"])):
+            c = dict(case)
+            c["preempt_at"] = case["preempt_at"][:i] + case["preempt_at"][i + 1:]
+            yield c
     if case.get("preempt"):
         for i in range(len(case["preempt"])):
             c = dict(case)
